@@ -93,6 +93,7 @@ bool walk_check(const cJSON *n, MVal *m, bool as_root, std::string &why);
 // optional: tells whether an owned string/key pointer is a live block of the simulated allocator; the harness never reads
 // through a pointer that is not (it would be the harness touching released memory, not the library)
 extern bool (*mv_block_live)(const void *);
+extern bool mv_lenient_valueint;   // properties that do not state the integer view of a number: a deviation there does not end the run (its consequences are judged)
 extern bool mv_tolerate_dangling;   // memory-judging properties: skip the comparison and let the ledger / sanitizer decide later
 // Well-formedness of a library tree without a model (C01/C10/C16): chains end in
 // NULL, back links mirror forward links, first->prev == last. Bounded by budget.
